@@ -483,6 +483,10 @@ func (x *Exec) applyEffects(st *State, e *Effects) {
 // ---------- loop heads ----------
 
 func (x *Exec) loopHead(fr *Frame, st *State, b *ssa.BasicBlock, pred *ssa.BasicBlock, ord int, li *LoopInfo) bool {
+	if fr.depth == 0 {
+		x.rebindOK = true
+		defer func() { x.rebindOK = false }()
+	}
 	body := li.body[b]
 	isBack := pred != nil && body[pred]
 	var invs []Clause
